@@ -83,7 +83,8 @@ inline void xmlEmit(const Val& v, const std::string& name, std::string& o) {
 	case Val::Bool: o += "<" + name + ">" + (v.b ? "true" : "false") + "</" + name + ">"; break;
 	case Val::Int: o += "<" + name + ">" + ref::i128str(v.i) + "</" + name + ">"; break;
 	case Val::F32: case Val::F64: o += "<" + name + ">" + fltText(v) + "</" + name + ">"; break;
-	case Val::Str: o += "<" + name + ">" + xmlText(v.s) + "</" + name + ">"; break;
+	// a string value whose ext_type is 1 is rendered as a CDATA section (another standard rendering of the same text)
+	case Val::Str: o += "<" + name + ">" + (v.ext_type == 1 && v.s.find("]]>") == std::string::npos ? "<![CDATA[" + v.s + "]]>" : xmlText(v.s)) + "</" + name + ">"; break;
 	case Val::Arr: { o += "<" + name + ">"; for (auto& e : v.a) xmlEmit(e, e.k == Val::Arr ? "array" : e.k == Val::Map ? "object" : "value", o); o += "</" + name + ">"; break; }
 	case Val::Map: { o += "<" + name + ">"; for (auto& e : v.m) xmlEmit(e.second, e.first.s, o); o += "</" + name + ">"; break; }
 	default: break;
